@@ -295,7 +295,9 @@ class JSON:
 
 json_renderer_factory = JSON()  # bw compat
 
-JSONP_VALID_CALLBACK = re.compile(r"^[$a-z_][$0-9a-z_\.\[\]]+[^.]$", re.I)
+JSONP_VALID_CALLBACK = re.compile(
+    r"^[$a-z_][$0-9a-z_\.\[\]]+[$0-9a-z_\]]\Z", re.I
+)
 
 
 class JSONP(JSON):
